@@ -1376,8 +1376,15 @@ def simulator_search(rounds=60, seed=0):
     from pydsol.core.model import DSOLModel
     from pydsol.core.experiment import SingleReplication
     from pydsol.core.utils import DSOLError
+    from pydsol.core.simevent import SimEvent
     rng = random.Random(seed)
     END = 10.0
+
+    class UserEvent(SimEvent):
+        """a user-defined event class (the simulator accepts any SimEventInterface through schedule_event): its execute
+        calls the target directly, so a failing handler surfaces as the handler's own exception, not as DSOLError"""
+        def execute(self):
+            getattr(self.target, self.method)(**self.kwargs)
 
     def gen_program():
         # tag -> list of actions
@@ -1450,23 +1457,36 @@ def simulator_search(rounds=60, seed=0):
                 strategy = ErrorStrategy.WARN_AND_PAUSE
             want = list(exp)
             trace, handles, refused = [], [], []
+            # every third program schedules user-defined event objects through schedule_event
+            user_events = (r % 3 == 2)
 
             class M(DSOLModel):
+                def sched_abs(self, t, p, tag):
+                    if user_events:
+                        return self.simulator.schedule_event(UserEvent(t, self, "h", p, tag=tag))
+                    return self.simulator.schedule_event_abs(t, self, "h", p, tag=tag)
+
                 def construct_model(self):
                     for (t, p, tag) in init:
-                        handles.append(self.simulator.schedule_event_abs(t, self, "h", p, tag=tag))
+                        handles.append(self.sched_abs(t, p, tag))
 
                 def h(self, tag):
                     sim = self.simulator
                     trace.append((sim.simulator_time, tag))
                     for a in prog[tag]:
                         if a[0] == "rel":
-                            handles.append(sim.schedule_event_rel(a[1], self, "h", a[2], tag=a[3]))
+                            if user_events:
+                                handles.append(self.sched_abs(sim.simulator_time + a[1], a[2], a[3]))
+                            else:
+                                handles.append(sim.schedule_event_rel(a[1], self, "h", a[2], tag=a[3]))
                         elif a[0] == "now":
-                            handles.append(sim.schedule_event_now(self, "h", a[1], tag=a[2]))
+                            if user_events:
+                                handles.append(self.sched_abs(sim.simulator_time, a[1], a[2]))
+                            else:
+                                handles.append(sim.schedule_event_now(self, "h", a[1], tag=a[2]))
                         elif a[0] == "abs":
                             try:
-                                handles.append(sim.schedule_event_abs(a[1], self, "h", a[2], tag=a[3]))
+                                handles.append(self.sched_abs(a[1], a[2], a[3]))
                             except DSOLError:
                                 pass
                         elif a[0] == "cancel":
@@ -1496,7 +1516,7 @@ def simulator_search(rounds=60, seed=0):
                             except Exception as e:
                                 refused.append("illegal delay %r raised %s instead of DSOLError" % (a[1], type(e).__name__))
                     if tag in fails:
-                        if tag % 2:
+                        if tag % 2 and not user_events:
                             raise SystemExit(3)        # a handler calling sys.exit(): still a handler failure
                         raise RuntimeError("injected handler failure")
             sim = DEVSSimulatorFloat("replay")
@@ -1585,7 +1605,7 @@ def simulator_search(rounds=60, seed=0):
                             "failure": "stepped trace %s is not a prefix of the reference %s" % (trace[:12], exp[:12])}
             elif trace != want:
                 return {"program": prog, "initial": init, "failing_tags": sorted(fails), "mode": mode, "cuts": cuts,
-                        "strategy": strategy, "failure": "executed trace %s differs from the reference semantics %s" % (trace[:14], want[:14])}
+                        "strategy": strategy, "user_defined_event_class": user_events, "failure": "executed trace %s differs from the reference semantics %s" % (trace[:14], want[:14])}
             for i in range(1, len(trace)):
                 if trace[i][0] < trace[i - 1][0]:
                     return {"program": prog, "initial": init, "failure": "clock moved backwards in the trace %s" % (trace,)}
